@@ -522,8 +522,16 @@ def equalfn_cases(rng, reps):
                     t1, t2 = build(a, b, c, v)
                     uses_matrix = bool((tree_kinds(t1, set()) | tree_kinds(t2, set())) & MATRIX)
                     out.append({"family": "equalfn", "template": name, "fam": fam, "n": n, "t1": t1, "t2": t2,
-                                "labels": "int" if uses_matrix else rng.choice(Labels.STYLES_NUM),
+                                "labels": "int" if uses_matrix else rng.choice(Labels.STYLES_XEQ),
                                 "num": rng.choice(["int", "frac"])})
+    # fixed cases with labels equal across types (known finding C05:equalfn:cross-type-equal-labels): the same polynomial
+    # x0*x1*c written once with one key and once with the key spelled twice in different orders
+    for kind in ("PUBO", "PUSO"):
+        for ks in ([[1, 0], [0, 1]], [[0, 1], [1, 0]], [[1, 0], [0, 1], [1, 0]], [[0, 1, 2], [2, 1, 0], [1, 0, 2]]):
+            one = _m(kind, [[sorted(ks[0]), str(len(ks))]])
+            many = _m(kind, [[k, "1"] for k in ks])
+            out.append({"family": "equalfn", "template": "xeq-fixed", "fam": "bool" if kind == "PUBO" else "spin",
+                        "n": 3, "t1": many, "t2": one, "labels": "xeq", "num": "int"})
     return out
 
 def process_equalfn(ctx, cases):
@@ -567,9 +575,16 @@ def process_equalfn(ctx, cases):
         if "terms" in m1 and "terms" in m2 and m1["terms"] != m2["terms"]:
             ctx.diff("equalfn-model", c, m1, m2)        # would contradict equal_functions_equal_dicts
         if not (o1 == o2 and o2 == o1 and not (o1 != o2) and dict(o1) == dict(o2)):
-            ctx.violation("C05:equalfn", c,
-                          "two expression trees denoting the same function gave models that do not compare equal: "
-                          "%r vs %r" % (c1["terms"], c2["terms"]))
+            if c["labels"] == "xeq" and c1["terms"] == c2["terms"]:
+                # the two results are the same polynomial and differ only in how one monomial is spelled with labels that
+                # are equal across types (1, 1.0, True): the recorded known finding, kept apart from every other failure
+                ctx.violation("C05:equalfn:cross-type-equal-labels", c,
+                              "same function, same polynomial, but the stored dicts differ in the spelling of a key whose "
+                              "labels are equal across types: %r vs %r" % (dict(o1), dict(o2)))
+            else:
+                ctx.violation("C05:equalfn", c,
+                              "two expression trees denoting the same function gave models that do not compare equal: "
+                              "%r vs %r" % (c1["terms"], c2["terms"]))
 
 # ------------------------------------------------------------------ driver of the check
 
@@ -584,7 +599,7 @@ def expr_case(rng, depth=None):
     n = rng.randint(2, 6)
     tree = gen_model(rng, fam, n, depth if depth is not None else rng.choice([1, 2, 2, 3, 3, 4]), kinds)
     uses_matrix = bool(tree_kinds(tree, set()) & MATRIX)
-    labels = "int" if uses_matrix else rng.choice(Labels.STYLES_NUM)
+    labels = "int" if uses_matrix else rng.choice(Labels.STYLES_XEQ)
     num = rng.choice(["int", "frac", "float"])
     if num == "float" and (not all_dyadic(tree) or not float_exact(tree, fam == "spin")):
         num = "frac"
